@@ -290,7 +290,16 @@ def _check_rows(rep, rc, rd, m, cc, modname, gen, sheets) -> None:
                 rep.violation(rd, modname, "template", f"{cc}: template column {ci} is labelled '{prefix}...'", f"{cc.upper()}: template header of column {ci} is '{lab}', expected it to start with '{prefix}': the column/field table no longer matches the shipped template", loc(c[2]))
                 continue
             if v == ("const", "") and ci in (2, 5, 10, 11):
-                continue  # income rows: blank lot cells
+                # blank lot cells are right exactly for fractions without a lot (income): the path must say so, and nothing else
+                lot_t = exp("gl.acquired_lot")
+                conds = p.conds()
+                no_lot = any(c == ("not", ("truthy", lot_t)) or c == ("cmp", "is", lot_t, ("const", None)) for c in conds)
+                extra = [c for c in conds if any(tkey(s2) == tkey(lot_t) for s2 in _tuples(c)) and c not in (("not", ("truthy", lot_t)), ("cmp", "is", lot_t, ("const", None)))]
+                key_b = ("blank", ci, tkey(conds))
+                if key_b not in checked:
+                    checked.add(key_b)
+                    rep.check(no_lot and not extra, rd, modname, f.qualname, f"{cc}: lot column {ci} is blank only for fractions without an acquired lot", f"{cc.upper()}: column {ci} ('{lab[:40]}') is left blank under {[show(c)[:100] for c in conds if 'acquired_lot' in show(c) or 'sheet' in show(c)][:3]}; it may be blank only when the fraction has no acquired lot (income): a disposal filed on an income-named sheet (e.g. a STAKING out-transaction) still has a lot, a date acquired and a cost basis", loc(c[2]))
+                continue
             if isinstance(want_src, tuple) and want_src[0] == "DATE":
                 recv = exp(want_src[1])
                 ok = v[0] == "xcall" and v[1] == "strftime" and tkey(v[2]) == tkey(recv) and len(v[3]) == 1 and v[3][0][0] == "const" and sorted(re.findall(r"%(.)", str(v[3][0][1]))) in (["Y", "d", "m"], ["d", "m", "y"])
